@@ -59,8 +59,10 @@ func New(config ...Config) fiber.Handler {
 	trustedSubOrigins := []subdomain{}
 
 	for _, origin := range cfg.TrustedOrigins {
+		// Trim first: the wildcard position below must refer to the trimmed origin
+		origin = utils.Trim(origin, ' ')
 		if i := strings.Index(origin, "://*."); i != -1 {
-			trimmedOrigin := utils.Trim(origin[:i+3]+origin[i+4:], ' ')
+			trimmedOrigin := origin[:i+3] + origin[i+4:]
 			isValid, normalizedOrigin := normalizeOrigin(trimmedOrigin)
 			if !isValid {
 				panic("[CSRF] Invalid origin format in configuration:" + origin)
@@ -68,8 +70,7 @@ func New(config ...Config) fiber.Handler {
 			sd := subdomain{prefix: normalizedOrigin[:i+3], suffix: normalizedOrigin[i+3:]}
 			trustedSubOrigins = append(trustedSubOrigins, sd)
 		} else {
-			trimmedOrigin := utils.Trim(origin, ' ')
-			isValid, normalizedOrigin := normalizeOrigin(trimmedOrigin)
+			isValid, normalizedOrigin := normalizeOrigin(origin)
 			if !isValid {
 				panic("[CSRF] Invalid origin format in configuration:" + origin)
 			}
